@@ -1,0 +1,26 @@
+//go:build verif
+
+package grpchan
+
+import "github.com/fullstorydev/grpchan/internal"
+
+// Re-exports of the internal package for the verification harness under
+// /verif (a module outside this tree cannot import grpchan/internal).
+// Compiled only with the "verif" build tag; adds no behaviour.
+
+type (
+	VerifCallOptions                = internal.CallOptions
+	VerifUnaryServerTransportStream = internal.UnaryServerTransportStream
+	VerifServerTransportStream      = internal.ServerTransportStream
+)
+
+var (
+	VerifCopyMessage           = internal.CopyMessage
+	VerifCloneMessage          = internal.CloneMessage
+	VerifClearMessage          = internal.ClearMessage
+	VerifTranslateContextError = internal.TranslateContextError
+	VerifFindUnaryMethod       = internal.FindUnaryMethod
+	VerifFindStreamingMethod   = internal.FindStreamingMethod
+	VerifGetCallOptions        = internal.GetCallOptions
+	VerifApplyPerRPCCreds      = internal.ApplyPerRPCCreds
+)
